@@ -120,7 +120,8 @@ def verify_unit(modname, tier="quick", seed=None, rlimit=None, canaries=True, ta
     for f in unit.frags:
         res.functions.append({"name": f.qualname, "kind": f.kind, "file": f.file,
                               "lines": "%d-%d" % (f.line_of_rel(0), f.line_of_rel(len(f.orig))),
-                              "sha256_16": f.sha(), "contracted": f.contracted})
+                              "sha256_16": f.sha(), "contracted": f.contracted,
+                              "serves": sorted(set(f.props_all) | set(f.props_safety))})
         res.rewrites += f.rewrites
         res.dropped += f.dropped
     for m in LABEL_RE.finditer(text):
